@@ -13,6 +13,8 @@ run_demo() {
   case "$kind" in
     core) ( cd "$W" && cp "$out/demo/$demo" searchlite-core/tests/ && cargo test -p searchlite-core --offline --test "${demo%.rs}" 2>&1 | grep -E "^test result|error(\[|:)|panicked" | head -5; rm -f "searchlite-core/tests/$demo" ) ;;
     http) ( cd "$W" && mkdir -p searchlite-http/tests && cp "$out/demo/$demo" searchlite-http/tests/ && cargo test -p searchlite-http --offline --test "${demo%.rs}" 2>&1 | grep -E "^test result|error(\[|:)|panicked" | head -5; rm -f "searchlite-http/tests/$demo" ) ;;
+    corevec) ( cd "$W" && cp "$out/demo/$demo" searchlite-core/tests/ && cargo test -p searchlite-core --offline --features vectors --test "${demo%.rs}" 2>&1 | grep -E "^test result|error(\[|:)|panicked" | head -5; rm -f "searchlite-core/tests/$demo" ) ;;
+    cratetest) ( mkdir -p "$S/out" && rsync -a --exclude target "$out/demo/" "$S/out/demo/" && cd "$S/out/demo" && cargo test --offline 2>&1 | grep -E "^test result|^error" | head -5 ) ;;
     crate) ( mkdir -p "$S/out" && rsync -a --exclude target "$out/demo/" "$S/out/demo/" && cd "$S/out/demo" && cargo run --offline 2>&1 | grep -E "RESULT|violation\(s\)|^error" | head -5 ) ;;
   esac
 }
